@@ -27,7 +27,13 @@ CAP_FUNCS = ["spifconf_find_file", "spifconf_open_file", "spiftool_temp_file", "
 
 class ConfCap(Cap):
     def no_inline(self, fn):
-        return fn.unit is not self.cur_fn.unit or Cap.no_inline(self, fn) or fn.name in ("spifconf_shell_expand", "spifconf_parse")
+        # helpers of other units are not interpreted, except the small string/file tools (spiftool_*) that store through a
+        # pointer argument: their effect on the caller's buffers decides the caller's bounds (the temp-file name written back
+        # into the template)
+        cross = fn.unit is not self.cur_fn.unit and not (
+            fn.name.startswith("spiftool_") and len(fn.nodes) < 600 and
+            any(p_.get("tp") and self.may_write_through(fn, j_) for j_, p_ in enumerate(fn.params)))
+        return cross or Cap.no_inline(self, fn) or fn.name in ("spifconf_shell_expand", "spifconf_parse")
 
 
 def run(tier="quick"):
